@@ -18,6 +18,7 @@ SIG_INSIDE = "C10:Close-inside-OnData-no-peer-notification-no-OnLocalClose"
 SIG_DURING = "C10:Close-while-OnData-runs-no-peer-notification-no-OnLocalClose"
 SIG_CAS = "C10:close-loses-state-CAS-returns-nil-stream-not-closed"
 SIG_GHOST = "C10:data-in-flight-to-locally-closed-server-stream-recreates-stream-id"
+SIG_SELFWAIT = "C10:Close-inside-OnData-waits-for-its-own-goroutine"
 
 
 def t_signature(c, msg):
@@ -26,6 +27,8 @@ def t_signature(c, msg):
         return "C10:harness-setup-failed"
     if msg.startswith("ghost:"):
         return SIG_GHOST
+    if sc in ("inside-twice", "inside-after-peer-close"):
+        return SIG_SELFWAIT if "did not return" in " ".join(c.get("oracle") or []) else "C10:" + sc + ":" + re.sub(r"\d+", "#", msg)[:60]
     if sc == "inside":
         return SIG_INSIDE
     if sc == "during":
